@@ -283,3 +283,12 @@ Fixpoint wait_for_quit (helo : bytes) (lines : list bytes) (badcmds : nat) : Cre
         | _ => Crash 43
         end
   end.
+
+(** smtp_data() refusing a message: the 354 reply (the literal of smtp_data that starts with '3'),
+    then, after the end of the data, the error reply of the case's shape *)
+Definition smtp_data_model (es : list case_elem) : site_result :=
+  match filter (fun l => N.eqb (hd 0%N l) 51) (literal_model FN_smtp_data), site_model FN_smtp_data es with
+  | [go], Wrote (Ok ls) => Wrote (Ok (go :: ls))
+  | _, Wrote r => Wrote r
+  | _, NoShape => NoShape
+  end.
